@@ -52,6 +52,42 @@ type Seed struct {
 	Fields []core.Field
 	Fix    func(b []byte) // optional: re-establish checksums after a field was replaced (both variants are run)
 	Rels   []Rel          // fields whose boundary is relative to the input length
+	Combos []ComboAxis    // fields that have to lie *together*: mutants with two or more axes changed at once
+}
+
+// ComboAxis is one dimension of a combination mutant: one of Fields gets one of Values (or the axis is left as
+// it is).  comboMutants enumerates every choice in which at least two axes are changed — the hostile inputs
+// that single-field substitution cannot reach because each lie alone is still caught by a check that trusts
+// the other field (a container size and the size of the area inside it and the size of a record inside that).
+type ComboAxis struct {
+	Fields []core.Field
+	Values []uint64
+}
+
+func comboMutants(seed []byte, axes []ComboAxis) [][]byte {
+	var out [][]byte
+	var rec func(i int, cur []byte, changed int)
+	rec = func(i int, cur []byte, changed int) {
+		if i == len(axes) {
+			if changed >= 2 {
+				out = append(out, cur)
+			}
+			return
+		}
+		rec(i+1, cur, changed) // axis i unchanged
+		for _, f := range axes[i].Fields {
+			if f.Off < 0 || f.Off+f.W > len(seed) {
+				continue
+			}
+			for _, v := range axes[i].Values {
+				b := append([]byte(nil), cur...)
+				putField(b, f, v)
+				rec(i+1, b, changed+1)
+			}
+		}
+	}
+	rec(0, append([]byte(nil), seed...), 0)
+	return out
 }
 
 // Rel is a little-endian field whose interesting values depend on where the thing it describes
@@ -239,7 +275,7 @@ func (prop) Gen(r *rand.Rand, tier string) []core.Case {
 		add := func(list *[]core.Case, kind string, in []byte, args map[string]string) {
 			c := mkCase(kind, e, in, args)
 			key := c.Args["in"]
-			for _, k := range []string{"i", "n", "off", "start", "pre", "total", "id", "vt"} {
+			for _, k := range []string{"i", "n", "off", "start", "pre", "total", "id", "vt", "recalc"} {
 				key += "|" + c.Args[k]
 			}
 			if seen[key] {
@@ -270,6 +306,11 @@ func (prop) Gen(r *rand.Rand, tier string) []core.Case {
 					s.Fix(b2)
 					add(&seedCases, "fit-boundary+fix:"+s.Name, b2, s.Args)
 				}
+			}
+		}
+		for _, s := range seeds {
+			for _, b := range comboMutants(s.In, s.Combos) {
+				add(&seedCases, "combo:"+s.Name, b, s.Args) // few and precise: never sub-sampled
 			}
 		}
 		for _, s := range seeds {
